@@ -406,7 +406,13 @@ def gen(rp, rw, tier):
         for _ in range(rw.randint(1, 4)):
             k = rw.random()
             if k < 0.3:
-                nem.append(["nem", "mock_tz", rw.choice([None, None, zm, z2])])
+                mz = rw.choice([None, None, zm, z2])
+                if mz is not None and rw.random() < 0.3:
+                    # `with test_local_timezone(mz):` held open by the nemesis: two writes
+                    nem.append(["nem", "mock_ctx_enter", mz])
+                    nem.append(["nem", "mock_ctx_exit"])
+                else:
+                    nem.append(["nem", "mock_tz", mz])
             elif k < 0.45:
                 fs2, env2 = fs_config(rw, z2, faulty and rw.random() < 0.4)
                 for path, node in fs2.items():
